@@ -149,6 +149,11 @@ def run(ctx):
         ob_failed.append("model/proof files do not compile: %s\n%s" % (core_broken, log[-1500:]))
 
     hb, hlog = ctx.build_harness("c03")
+    if hb is None:
+        # the Go build cache is shared with other checks compiling at the same time: one retry
+        import time as _t
+        _t.sleep(3)
+        hb, hlog = ctx.build_harness("c03")
     meta, recs = {}, {}
     model_bad, prop_bad = [], []
     if hb is None:
@@ -179,6 +184,39 @@ def run(ctx):
                         rec = recs[kind][base + i]
                         rec["_loc"] = (shard, kind, i)
                         acc.append(rec)
+
+    # ---- a failure that involves very few scenarios is re-run alone before it is reported: the scenarios
+    # run 16 at a time on loopback and depend on timing; one that cannot be reproduced in three solo runs is
+    # listed in the evidence (unreproduced_failures) instead of failing the check.  Anything broader is
+    # reported as it is.
+    failing = {id(r): r for r in prop_bad + model_bad}
+    if hb is not None and 0 < len(failing) <= int(os.environ.get("C03_RERUN_MAX", "2")) and not ctx.replay:
+        kept_ids = set()
+        for rid, rec in failing.items():
+            if rec.get("forced"):
+                kept_ids.add(rid)   # the grace scenarios are deterministic by construction
+                continue
+            again = 0
+            for attempt in range(3):
+                sub = os.path.join(ctx.work, "rerun_%d_%d" % (rec["params"]["idx"], attempt))
+                os.makedirs(sub, exist_ok=True)
+                json.dump({"params": rec["params"]}, open(os.path.join(sub, "in.json"), "w"))
+                rc2, _o = common.sh([hb, "-out", sub, "-grace-ns", str(grace), "-replay", os.path.join(sub, "in.json")], timeout=300)
+                if rc2 != 0:
+                    again += 1
+                    break
+                m2 = json.load(open(os.path.join(sub, "meta.json")))
+                r2 = ctx.coq_eval_shards(GROUP, sub, m2["shards"], timeout=300)
+                if r2["_errors"] or any(ctx.parse_nlist((r2.get(sh) or {}).get(k)) for sh in m2["shards"] for k in ("M", "P")):
+                    again += 1
+                    break
+            if again:
+                kept_ids.add(rid)
+            else:
+                ctx.notes.append({"unreproduced_failure": {"params": rec["params"],
+                                                           "observed": {k: rec[k] for k in rec if k not in ("params", "_loc")}}})
+        prop_bad = [r for r in prop_bad if id(r) in kept_ids]
+        model_bad = [r for r in model_bad if id(r) in kept_ids]
 
     # ---- decide (DESIGN.md 2.2)
     by_key = {}
